@@ -3521,3 +3521,56 @@ def trunc_float(r: R, chk, entries: List[str], rule="TRUNC-FLOAT"):
     chk.ob(rule, f"no integer on the path is a truncated float quotient ({n} functions reachable from {', '.join(entries)}; positive control {'recognised' if ctl else 'MISSING'})", bool(ctl), loc="",
            detail="" if ctl else "the positive control of the rule is not recognised any more")
     return n
+
+
+# ---------------------------------------------------------------------------------------------------------
+# LEN-WEIGHTS: a weight vector of the wrong length is refused before it is stored
+SHAPE_CHECKING = ("np.dot", "np.matmul", "np.inner", "np.tensordot", "np.einsum")
+
+
+def len_weights(r: R, chk, setter: str = "curves.BaseCurve.weights.setter", rule="LEN-WEIGHTS"):
+    """len(weights) = npts is part of the state invariant.  The setter has no explicit length test: what refuses a vector of the
+    wrong length is the contraction of the weights with the npts-row basis matrix inside the root finder (numpy checks the
+    shapes).  Either an explicit comparison of len(value) with npts guards the store, or the value reaches a shape-checking
+    contraction (np.dot, @, np.inner ...) with a matrix sized by the knot vector — zip() instead truncates silently."""
+    ctx = r.root(setter)
+    fi = ctx.fi
+    val = next((p for p in fi.params if p not in ("self", "cls")), None)
+    explicit = [c for c in ast.walk(fi.node) if isinstance(c, ast.Compare) and any(isinstance(x, ast.Call) and seg(x.func) == "len" and x.args and isinstance(x.args[0], ast.Name) and x.args[0].id == val for x in ast.walk(c)) and "npts" in seg(c)]
+    found = []
+    why = "the value is handed to no function"
+    if not explicit:
+        for cr in ctx.calls:
+            node = cr.node
+            if not isinstance(node, ast.Call):
+                continue
+            for f in cr.callees:
+                fparams = [p for p in f.params if p not in ("self", "cls")]
+                for k, a in enumerate(node.args):
+                    if not (isinstance(a, ast.Name) and a.id == val and k < len(fparams)):
+                        continue
+                    p = fparams[k]
+                    aliases = {p}
+                    for a_ in ast.walk(f.node):
+                        if isinstance(a_, ast.Assign) and len(a_.targets) == 1 and isinstance(a_.targets[0], ast.Name):
+                            v_ = a_.value
+                            while isinstance(v_, ast.Call) and seg(v_.func) in ("tuple", "list", "np.array", "np.asarray") and v_.args:
+                                v_ = v_.args[0]
+                            if isinstance(v_, ast.Name) and v_.id in aliases:
+                                aliases.add(a_.targets[0].id)
+                    uses = []
+                    for c in ast.walk(f.node):
+                        if isinstance(c, ast.Call) and seg(c.func) in SHAPE_CHECKING and any(isinstance(x, ast.Name) and x.id in aliases for x in c.args):
+                            uses.append(c)
+                        if isinstance(c, ast.BinOp) and isinstance(c.op, ast.MatMult) and any(isinstance(x, ast.Name) and x.id in aliases for x in (c.left, c.right)):
+                            uses.append(c)
+                    zips = [c for c in ast.walk(f.node) if isinstance(c, ast.Call) and seg(c.func) == "zip" and any(isinstance(x, ast.Name) and x.id in aliases for x in c.args)]
+                    if uses:
+                        found.append((f.qual, uses[0]))
+                    else:
+                        why = f"{f.qual} consumes `{p}` " + (f"through `{seg(zips[0], 40)}`, which stops at the shorter sequence" if zips else "without a contraction that checks its length")
+    ok = bool(explicit) or bool(found)
+    chk.ob(rule, f"{setter}: a weight vector whose length is not npts is refused before the store", ok, loc=f"{fi.module}.py:{fi.node.lineno}",
+           detail="" if ok else f"{setter}: no comparison of len({val}) with npts guards the store, and {why}: a weight vector that is too long (no sign change in its first npts entries) is stored — len(weights) != npts, the curve cannot be evaluated",
+           func=setter, construct="length of the weights not checked")
+    return 1
